@@ -156,8 +156,8 @@ def r_one_start_closure(cx, ids=('R09.6', 'R04.5', 'R16.2')):
                     if c[0] == 'op' and c[1] in ('Eq', 'Ne') or is_call(c, r'PartialEq::(eq|ne)$'):
                         a, d = (c[2], c[3]) if c[0] == 'op' else (c[2][0], c[2][1])
                         neg = (c[1] == 'Ne') if c[0] == 'op' else short(c[1]).endswith('ne')
-                        ks = {cstr(a), cstr(d)}
-                        if ks == {NEXT, 'nfa::noncontiguous::NFA::FAIL'}:
+                        ks = id_spellings(cx, a, d)
+                        if NEXT in ks and 'nfa::noncontiguous::NFA::FAIL' in ks:
                             return int(bool(isfail) != neg)
                         if 'nfa::noncontiguous::NFA::DEAD' in ks and any(re.search(r'\.fail$', k) for k in ks):
                             return int(bool(faildead) != neg)
@@ -210,6 +210,28 @@ def r_one_start_closure(cx, ids=('R09.6', 'R04.5', 'R16.2')):
             parts = [cstr(x) for x in (canon(idx)[2], canon(idx)[3])] if canon(idx)[0] == 'op' else []
             ok = ok or any(sid_arg in p and 'Shl(' in p and 'dfa.stride2' in p for p in parts)
     cx.report('R16.2', cb, 'old2new', ok, 'the row written for NFA state s starts at s << stride2 (same map as for the special ids)' if ok else 'the DFA row of a state is not at oldsid << stride2')
+
+
+def id_spellings(cx, a, d):
+    """The spellings of the two sides of an (in)equality between state ids.  `match id { NFA::FAIL => .. }` compares the raw
+    value with a literal: the literal stands for every named id constant of that value and the raw value for the id itself."""
+    out = set()
+    sides = [a, d]
+    lit = [x for x in sides if isinstance(x, tuple) and x[0] == 'c' and isinstance(x[1], int) and not isinstance(x[1], bool)]
+    if len(lit) == 1:
+        other = [x for x in sides if x is not lit[0]][0]
+        raw = other
+        n = 0
+        while isinstance(raw, tuple) and raw[0] == 'f' and raw[2] == '0':
+            raw = raw[1]
+            n += 1
+        if n == 2:
+            out.add(cstr(raw))
+            for c in cx.facts.j.get('consts', []):
+                if c.get('ty') == 'util::primitives::StateID' and c.get('value') == lit[0][1]:
+                    out.add(c['path'])
+            return out
+    return {cstr(a), cstr(d)}
 
 
 class BothStarts:
@@ -330,8 +352,8 @@ def both_starts_rules(cx, ids=('R09.6', 'R04.5', 'R16.2')):
                     if c[0] == 'op' and c[1] in ('Eq', 'Ne') or is_call(c, r'PartialEq::(eq|ne)$'):
                         a, d = (c[2], c[3]) if c[0] == 'op' else (c[2][0], c[2][1])
                         neg = (c[1] == 'Ne') if c[0] == 'op' else short(c[1]).endswith('ne')
-                        ks = {cstr(a), cstr(d)}
-                        if ks == {NEXT, 'nfa::noncontiguous::NFA::FAIL'}:
+                        ks = id_spellings(cx, a, d)
+                        if NEXT in ks and 'nfa::noncontiguous::NFA::FAIL' in ks:
                             return int(bool(isfail) != neg)
                         if 'nfa::noncontiguous::NFA::DEAD' in ks and any(re.search(r'\.fail$', k) for k in ks):
                             return int(bool(faildead) != neg)
